@@ -213,6 +213,11 @@ class Interp(object):
             self.out.task_log.append((name, branch, json.dumps(params, sort_keys=True), t0))
             res = self.tasks(st.get("Resource"), params, t0)
             tmo = st.get("TimeoutSeconds")
+            if st.get("TimeoutSecondsPath"):
+                # a reference path into the state's input giving the number of seconds
+                tmo = self.path(data, st["TimeoutSecondsPath"])
+                if isinstance(tmo, bool) or not isinstance(tmo, int) or tmo <= 0:
+                    raise Unjudged("TimeoutSecondsPath does not select a positive integer")
             deadline = None if self.exec_timeout is None else self.start + self.exec_timeout
             if res[0] == "timeout":
                 state_deadline = None if tmo is None else t0 + tmo
